@@ -48,6 +48,7 @@ int main(int argc, char** argv)
    pg.sizes = {{1, 1}, {2, 1}, {1, 2}, {2, 2}, {3, 2}, {2, 3}, {3, 3}, {4, 3}, {3, 4}};
    pg.densities = {15, 40, 100};
    pg.seeds = 60;
+   pg.magnitudes = 2;
    auto fp = [&](uint64_t idx, int, Ctx & c) -> uint64_t
    {
       PlantedSpec sp = pg.at(idx);
